@@ -45,7 +45,7 @@ def unvisited_slot_obligations(chk, rule, H, want_expr=True, want_targets=False)
                         seen.setdefault((hname, f"{field}:statements-not-visited"), []).append(False)
                     continue
                 if slot.ctx == "store":
-                    if want_targets:
+                    if want_targets and hname != "visit_For":     # loop targets other than names / tuples of names are refused outright (C01 R01.7)
                         poss = Q.possible_kinds(slot, dec) if isinstance(slot, In) else {"?"}
                         compound = bool(poss - {"Name"})
                         seen.setdefault((hname, "target-subexpressions-visited"), []).append(wrapped or not compound)
